@@ -1035,6 +1035,12 @@ impl<'tera> VirtualMachine<'tera> {
         } else {
             self.interpret(&mut state, &mut output)?;
         }
+        #[cfg(feature = "verif_hooks")]
+        crate::verif_hooks::record_final_stacks(
+            state.stack.verif_len(),
+            state.for_loops.len(),
+            state.capture_buffers.len(),
+        );
         Ok(())
     }
 }
